@@ -1,4 +1,5 @@
 import FFS.Driver.Rlp
+import FFS.Driver.Secp
 open Lean FFS FFS.Driver
 
 def dispatch (op : String) (j : Json) : Json :=
@@ -6,6 +7,12 @@ def dispatch (op : String) (j : Json) : Json :=
   | "rlp.decode" => opRlpDecode j
   | "rlp.encode" => opRlpEncode j
   | "rlp.roundtrip" => opRlpRoundtrip j
+  | "secp.vnorm" => opSecpVnorm j
+  | "secp.recover" => opSecpRecover j
+  | "secp.judgesig" => opSecpJudgeSig j
+  | "secp.compact" => opSecpCompact j
+  | "secp.decodecompact" => opSecpDecodeCompact j
+  | "keccak" => opKeccak j
   | _ => Json.mkObj [("bad", "op")]
 
 partial def loop (hin : IO.FS.Stream) (hout : IO.FS.Stream) : IO Unit := do
